@@ -11,6 +11,8 @@ def main():
     for extra in ("reads", "virtual", "binding", "lines", "static", "control", "random", "bind", "vars", "malformed", "parse", "dig"):
         if hasattr(B, extra + "_battery"):
             groups[extra] = (getattr(B, extra + "_battery"), getattr(B, extra + "_judge"))
+    from .props import C10
+    groups["runtime"] = (C10.runtime_battery, C10.runtime_judge)
     only = sys.argv[1:] 
     bad = 0
     for name, (bat, judge) in groups.items():
